@@ -247,6 +247,8 @@ class Memory:
             raise MemoryError('Cannot access memory at address 0x%x' % addr)
 
     def read(self, addr, n):
+        if getattr(_sim, 'on_read', None) is not None:
+            _sim.on_read()
         self.check(addr, n)
         o = addr - HEAP_BASE
         return bytes(self.buf[o:o + n])
@@ -257,6 +259,8 @@ class Memory:
         self.buf[o:o + len(data)] = data
 
     def cstring(self, addr):
+        if getattr(_sim, 'on_read', None) is not None:
+            _sim.on_read()
         if addr < HEAP_BASE or addr >= HEAP_BASE + len(self.buf):
             raise MemoryError('Cannot access memory at address 0x%x' % addr)
         o = addr - HEAP_BASE
@@ -572,6 +576,7 @@ class SimState:
         self.on_execute = None
         self.on_write = None
         self.on_selected_thread = None
+        self.on_read = None
         self.thread_gen = {}
 
     def execute(self, command):
